@@ -30,20 +30,20 @@ MENUS = {
 AUTO_PREFIX = '__lctxdb_cat_'
 MACROS = ['x', 'y']
 ENVS = ['x']
-SPECIALS = ['-', '--', '---']
-PROBES = ['-', '--', '---', '-a', 'a', '----']
+SPECIALS = ['-', '--', '---', '~~']
+PROBES = ['-', '--', '---', '-a', 'a', '----', '~', '~~', '~~~', '~-']
 
 CONTENTS = {
     0: dict(macros=[], environments=[], specials=[]),
     1: dict(macros=['x'], environments=[], specials=['--']),
-    2: dict(macros=['x', 'y'], environments=['x'], specials=['-', '---']),
+    2: dict(macros=['x', 'y'], environments=['x'], specials=['-', '---', '~~']),       # '~~': a first character no other content has
     3: dict(macros=['y'], environments=['x'], specials=['--', '---']),
 }
 CATS = ['A', 'B', None]
 PLACEMENTS = [('append', None), ('prepend', None), ('before', 'A'), ('after', 'A'),
               ('before', 'B'), ('after', 'B'), ('before', 'Z'), ('after', 'Z')]
 FILTERS = [dict(keep_categories=['A']), dict(exclude_categories=['A']),
-           dict(keep_which=['macros']), dict()]
+           dict(keep_which=['macros']), dict(), dict(keep_which=['specials']), dict(keep_which=['environments', 'specials'], exclude_categories=['B'])]
 EXTENDS = [(None, 1, False), (None, 2, False), ('E', 1, False), ('A', 2, False), (None, 0, True)]
 
 
@@ -260,6 +260,18 @@ def build(history):
         world, exp = ref_apply(world, op)
         got = impl_apply(dbs, op, step)
         outcomes.append((exp, got))
+        if step < len(history) - 1:
+            # every intermediate database is queried for every name (the answers were checked when this prefix was a
+            # state of its own); what the queries leave behind in the objects is part of the history
+            for db in dbs:
+                for n in MACROS + ['q']:
+                    db.get_macro_spec(n)
+                for n in ENVS + ['q']:
+                    db.get_environment_spec(n)
+                for n in SPECIALS:
+                    db.get_specials_spec(n)
+                for pr in PROBES:
+                    db.test_for_specials(pr, 0)
     return dbs, world, outcomes
 
 
@@ -455,7 +467,7 @@ def plan(tier):
         bounds=dict(b, cats=['A', 'B', None], contents=len(CONTENTS), placements=len(PLACEMENTS),
                     filters=FILTERS, extends=EXTENDS),
         rule=('all operation sequences of length <= %d over: add_context_category(3 names x 3 contents x 8 placements), '
-              'set_unknown_macro_spec, freeze, filtered_context (4 variants), extended_with (5 variants) on worlds of <= %d '
+              'set_unknown_macro_spec, freeze, filtered_context (6 variants), extended_with (5 variants) on worlds of <= %d '
               'databases; states merged on (reference world, internal chain-map shape, autogen counter); every database of '
               'every state queried for every name.  states = distinct canonical worlds (per shard), transitions = histories '
               'executed against the real objects; non-trivial = states with more than one category or database.  thorough adds a richer menu '
